@@ -20,6 +20,7 @@ ASSUMPTIONS = ["the documented grammar (class docstring of Regex) as read by vli
                "two adjacent word-like tokens are always separated by a blank; escaped operators are stand-alone tokens",
                "ill-formed strings with a missing right operand, empty group or empty text are 'grey' (the repository's own tests accept \"a|\" and Regex(\"\"))"]
 BUDGET = {"quick": 500, "thorough": 6000}
+FUZZ = {"procs": 8, "runs": 30000}      # atheris supplement of the thorough tier (vlib/fuzz.py)
 WATCHDOG = 30
 
 FOREIGN = "zz"
